@@ -636,15 +636,19 @@ def c11(rec):
             x = b.build(rec["t"])
     except Exception as e:  # noqa
         return [_verdict("C11", "declined_error", "build:" + type(e).__name__)]
-    variants = [("plain", x)]
-    try:
-        with lazy:
-            variants.append(("optimized", apply_optimizer(x)))
-    except Exception as e:  # noqa
-        out.append(_verdict("C11", "declined_error", "optimizer:" + type(e).__name__))
-    for vname, expr in variants:
+    from funsor.adjoint import AdjointTape
+
+    def plain():
+        return forward_backward(plus, times, x)
+
+    def optimized():
+        # the optimizer runs INSIDE the tape, so the renamings it introduces are recorded
+        with AdjointTape() as tape:
+            fwd = apply_optimizer(x)
+        return fwd, tape.adjoint(plus, times, fwd)
+    for vname, fn in (("plain", plain), ("optimized", optimized)):
         try:
-            forward, backward = forward_backward(plus, times, expr)
+            forward, backward = fn()
         except Exception as e:  # noqa
             out.append(_verdict("C11", "declined_error", "%s_tape:%s" % (vname, type(e).__name__), str(e)[:80]))
             continue
@@ -664,7 +668,12 @@ def c11(rec):
                 continue
             v = _eval_check(adj, a["exp"], "C11", vname + "_adjoint", need_output=False)
             if v["status"] == "mismatch":
-                v["feature"] = "broadcast_under_reduction" if adjoint_broadcast_feature(rec["t"], rec["plus"]) else "none"
+                feats = []
+                if adjoint_broadcast_feature(rec["t"], rec["plus"]):
+                    feats.append("broadcast_under_reduction")
+                if _leaf_occurrences(rec["t"], a["leaf"]) > 1:
+                    feats.append("repeated_leaf")
+                v["feature"] = "+".join(feats) or "none"
             out.append(v)
     return out
 
@@ -686,6 +695,16 @@ def _free(t):
             s |= _free(x)
         return s - {n for n, _ in t["vars"]}
     return set()
+
+
+def _leaf_occurrences(t, leaf):
+    if isinstance(t, dict):
+        if t == leaf:
+            return 1
+        return sum(_leaf_occurrences(v, leaf) for v in t.values())
+    if isinstance(t, list):
+        return sum(_leaf_occurrences(v, leaf) for v in t)
+    return 0
 
 
 def adjoint_broadcast_feature(t, plus):
@@ -1298,3 +1317,95 @@ def c09calls(rec):
     return [{"status": "_event", "event": {"problem": key, "match": match, "outcome": outcome,
                                            "model_outcome": rec["outcome"], "calls": calls, "model_calls": want}},
             _verdict("C09", "agree" if match else "alternative_tiebreak", sig=key)]
+
+
+# ---------------------------------------------------------------------------
+# C08, implementation-shaped optimizer model (spec/OptPath.tla)
+
+def c08path(rec):
+    """Force the real optimizer onto the path TLC chose (the module global `greedy` is
+    replaced), record the reduced-variable set of every Contraction it builds (module
+    global `Contraction` wrapped) and compare them step by step with the model's; compare
+    the value with the naive denotation."""
+    import funsor.optimizer as opt
+    from funsor.cnf import Contraction
+    from funsor.terms import Variable
+    exp = rec["exp"]
+    sig = "%s/%s ops=%s red=%s path=%s" % (rec["plus"], rec["times"], ["".join(n for n, _ in t["ins"]) for t in rec["terms"]],
+                                           "".join(n for n, _ in rec["red"]), rec["path"])
+    plus, times = fbuild.ASSOC[rec["plus"]], fbuild.ASSOC[rec["times"]]
+    tensors = [fbuild.Builder().build(t) for t in rec["terms"]]
+    red = frozenset(Variable(n, fbuild.dom_of(d)) for n, d in rec["red"])
+    spec_ins = [frozenset(n for n, _ in t["ins"]) for t in rec["terms"]]
+    recorded = {"steps": [], "seen_inputs": None}
+    orig_greedy, orig_con = opt.greedy, opt.Contraction
+
+    def forced_greedy(inputs, output, size_dict, *a, **k):
+        # translate the model's positions to the order the optimizer sees its operands in
+        import re as _re2
+        actual = [frozenset(_re2.sub(r"__BOUND_\d+$", "", n) for n in i) for i in inputs]
+        recorded["seen_inputs"] = actual
+        order = []          # order[k] = actual position of the model's operand k
+        used = set()
+        for s in spec_ins:
+            j = next(j for j, a_ in enumerate(actual) if a_ == s and j not in used)
+            used.add(j)
+            order.append(j)
+        cur_spec = list(range(len(spec_ins)))     # model's current list (by original index / new ids)
+        cur_act = list(range(len(actual)))
+        # simulate both lists to translate positions
+        ids_spec = list(order)                     # identity of each model position in actual ids
+        act_list = list(range(len(actual)))
+        next_id = len(actual)
+        out = []
+        for a_, b_ in rec["path"]:
+            ia, ib = ids_spec[a_], ids_spec[b_]
+            pa, pb = act_list.index(ia), act_list.index(ib)
+            out.append((pa, pb))
+            for p in sorted((pa, pb), reverse=True):
+                act_list.pop(p)
+            act_list.append(next_id)
+            ids_spec = [x for k, x in enumerate(ids_spec) if k not in (a_, b_)] + [next_id]
+            next_id += 1
+        return out
+
+    out = []
+    try:
+        with lazy:
+            x = Contraction(plus, times, red, *tensors)
+        opt.greedy = forced_greedy
+        try:
+            with opt.unfold:
+                expr = funsor.reinterpret(x)
+            # the optimize pass over a reflect base: every Contraction the rule builds stays a
+            # term, so the reduced-variable set of each path step can be read off the result
+            with funsor.interpretations.PrioritizedInterpretation(opt.optimize_base, reflect):
+                r = funsor.reinterpret(expr)
+        finally:
+            opt.greedy = orig_greedy
+        import re as _re
+
+        def collect(t):
+            if isinstance(t, Funsor):
+                if type(t).__name__ == "Contraction" and len(t.terms) >= 2:
+                    for c in t.terms:
+                        collect(c)
+                    recorded["steps"].append(sorted(_re.sub(r"__BOUND_\d+$", "", v.name) for v in t.reduced_vars))
+                elif type(t).__name__ in ("Reduce",):
+                    collect(t.arg)
+                elif type(t).__name__ == "Contraction":
+                    for c in t.terms:
+                        collect(c)
+        collect(r)
+        r = funsor.reinterpret(r)
+    except Exception as e:  # noqa
+        return [_verdict("C08", "declined_error", "optpath:" + type(e).__name__, str(e)[:120], sig=sig)]
+    if recorded["seen_inputs"] is None:
+        return [_verdict("C08", "declined_lazy", "optimizer_not_reached", sig=sig)]
+    want = [sorted(s) for s in rec["steps"]]
+    if sorted(recorded["steps"]) != sorted(want):
+        out.append(_verdict("C08", "mismatch", "optimizer_step_reductions", {"got": recorded["steps"], "want": want}, sig=sig))
+    v = _eval_check(r, exp, "C08", "optpath", need_output=False)
+    v["sig"] = sig
+    out.append(v)
+    return out
